@@ -3,12 +3,12 @@ CONSTANTS
   CKeys = {"k1", "k2"}
   Contents = {"a", "b"}
   NsIds = {"n1"}
-  NsNames = {"x", "y"}
+  NsNames = {"x", "", "<e>"}
   UKeys = {"u1"}
   UVals = {"p"}
   SKeys = {"s1"}
   CTypes = {"", "json"}
-  CDescs = {""}
+  CDescs = {"", "d", "<e>"}
   IKeys = {"s1:10.0.0.1:80"}
   IWeights = {2, 3}
   CaKeys = {"c1"}
@@ -24,6 +24,6 @@ CONSTANTS
   Defect_StaleSnapshotTail = FALSE
   Defect_NonAtomicCapture = FALSE
 VIEW View
-INVARIANTS LiveIsFold SnapshotsExact
+INVARIANTS LiveIsFold SnapshotsExact ImportRebuildsAllButNamespaces
 PROPERTIES RestartExact
 CHECK_DEADLOCK FALSE
